@@ -42,7 +42,16 @@ TraceSplit ==
     /\ l' = l + 1
     /\ UNCHANGED vars
 
-TraceNext == TraceSplit
+\* Reuse {api, same}: a call on a reused SizeCalculator compared with the same call
+\* on a fresh one - the object keeps nothing between calls
+TraceReuse ==
+    /\ l <= Len(Trace) /\ Ev.event = "Reuse"
+    /\ \/ Ev.same
+       \/ (~Ev.same /\ ~Strict /\ Report("reuse"))
+    /\ l' = l + 1
+    /\ UNCHANGED vars
+
+TraceNext == TraceSplit \/ TraceReuse
 TraceSpec == TraceInit /\ [][TraceNext]_tvars
 
 TraceAccepted == TLCGet("stats").diameter - 1 = Len(Trace)
